@@ -523,6 +523,21 @@ func (e *Engine) stdStub(full string, c *ast.CallExpr, recv *Value, args []Value
 		return out, true
 	case "io.WriteString":
 		return e.writerWrite(c, args[0], args[1], st), true
+	case "strconv.ParseInt", "strconv.ParseUint", "strconv.ParseFloat", "strconv.Atoi", "strconv.ParseBool", "strconv.ParseComplex":
+		note(full + `: "The errors that ` + strings.TrimPrefix(full, "strconv.") + ` returns have concrete type *NumError" (non-nil pointer)`)
+		res := e.pureUF(full, sig, recv, args, st)
+		if e.bound == 0 {
+			errv := res[len(res)-1]
+			// find the *strconv.NumError type through the function's package
+			if fn := e.staticCallee(c); fn != nil {
+				if obj := fn.Pkg().Scope().Lookup("NumError"); obj != nil {
+					pt := types.NewPointer(obj.Type())
+					u := e.unbox(errv.T, pt)
+					e.assume(st.pc, implies(not(eq(sx("i_tid", errv.T), "0")), and(eq(sx("i_tid", errv.T), fmt.Sprint(e.tid(pt))), e.lt(e.izero(), u.T))))
+				}
+			}
+		}
+		return res, true
 	case "sort.Strings", "sort.Slice", "sort.Sort", "sort.Ints", "sort.SliceStable", "sort.Stable", "slices.Sort", "slices.SortFunc":
 		note(full + ": permutes the slice in place (contents havocked; length unchanged)")
 		if len(args) > 0 {
